@@ -10,7 +10,7 @@ PROP = "C14"
 V, I, S = A.Var, A.Int, A.Str
 
 ROUTE_OPS = ["var", "arg", "list", "list_destructure", "for_list", "ret", "assign", "overwrite", "overwrite_elem", "dot0", "idx0", "dot1", "idx1", "nested1", "obj_lit",
-             "list_spread", "arg_spread", "rest_param", "concat", "slice_copy", "collect"]
+             "list_spread", "arg_spread", "rest_param", "concat", "slice_copy", "collect", "list_in_object", "list_in_list"]
 
 
 def make_probe(desc, k):
@@ -98,6 +98,14 @@ def make_probe(desc, k):
                      A.Declare(V(l), A.lst(I(1), I(2))), A.Declare(V(x), A.Call(V(f), [(V(l), True)])),
                      P(V(l)), P(V(x)), P(A.Bin("===", V(x), V(l)))]
             lines = render([1, 2]) + render([99, 2]) + ["false"]
+        elif name == "mutate_list_with_call_args_around":
+            # the callee works on the caller's container whatever the neighbouring arguments look like
+            stmts = [A.FuncStmt("idn%d" % k, [V("v")], False, [A.Return(V("v"))]),
+                     A.FuncStmt(f, [V("a"), V("p"), V("b")], False, [A.Assign(A.Index(V("p"), I(0)), I(9)), A.Return(A.Bin("===", V("p"), V(x)))]), A.Declare(V(x), A.lst(I(1), I(2))),
+                     P(A.call(f, I(0), V(x), A.call("idn%d" % k, I(1)))), P(V(x)),
+                     A.Assign(A.Index(V(x), I(0)), I(1)), P(A.call(f, A.call("idn%d" % k, I(1)), V(x), A.lst(A.call("idn%d" % k, I(2))))), P(V(x)),
+                     A.Declare(V(l), A.obj(("k", I(1)))), A.FuncStmt(f + "o", [V("p"), V("b")], False, [A.Assign(A.Prop(V("p"), "k", False), I(9))]), A.ExprStmt(A.call(f + "o", V(l), A.call("idn%d" % k, I(1)))), P(V(l))]
+            lines = ["true"] + render([9, 2]) + ["true"] + render([9, 2]) + render({"k": 9})
         elif name == "rest_fresh_per_call":
             stmts = [A.FuncStmt(f, [V("r")], True, [A.Return(V("r"))]),
                      P(A.Bin("===", A.call(f), A.call(f))), P(A.Bin("==", A.call(f), A.lst()))]
@@ -166,6 +174,11 @@ def make_probe(desc, k):
                 stmts.append(A.Declare(V(nv), A.Index(A.Paren(A.Bin("+", A.lst(I(0)), A.lst(prev))), I(1))))
             elif op == "slice_copy":
                 stmts.append(A.Declare(V(nv), A.Index(A.RangeIndex(A.lst(I(0), prev), I(1), None), I(0))))
+            elif op == "list_in_object":
+                # stored in a list that lives in an object: reading the element does not make the object its receiver
+                stmts += [A.Assign(A.Prop(V(o[n % 2]), "hooks%d" % n, False), A.lst(I(0), prev)), A.Declare(V(nv), A.Index(A.Prop(V(o[n % 2]), "hooks%d" % n, False), I(1)))]
+            elif op == "list_in_list":
+                stmts += [A.Declare(V(nv + "_ll"), A.lst(A.lst(prev))), A.Declare(V(nv), A.Index(A.Index(V(nv + "_ll"), I(0)), I(0)))]
             elif op == "collect":
                 stmts += [A.Declare(A.ListE([(V("_"), False), (V(nv + "_r"), False)], True), A.lst(I(0), prev)), A.Declare(V(nv), A.Index(V(nv + "_r"), I(0)))]
             elif op == "list_destructure":
@@ -289,7 +302,7 @@ def make_probe(desc, k):
     raise ValueError(desc)
 
 
-FRESH = ["lone_rest_spread_is_fresh", "param_opassign_list", "rest_wraps_single_list", "assign_param", "destructure_assign_param", "mutate_list", "mutate_object", "same_arg_twice", "rest_is_fresh",
+FRESH = ["mutate_list_with_call_args_around", "lone_rest_spread_is_fresh", "param_opassign_list", "rest_wraps_single_list", "assign_param", "destructure_assign_param", "mutate_list", "mutate_object", "same_arg_twice", "rest_is_fresh",
          "rest_fresh_per_call", "params_fresh_per_call", "arg_expr_once"]
 SPECIAL = ["nested_fn_sees_enclosing_this", "this_is_the_object_itself", "method_mutates_this", "same_fn_two_objects",
            "this_outside_any_function", "callee_not_function", "recursion_keeps_this",
